@@ -4,8 +4,9 @@
     as reported by the implementation (an input of the model); values are exact rationals. *)
 From Coq Require Import ZArith QArith List String Bool.
 Require Import QV.Common.Outcome QV.Common.PyAscii.
-Require Import QV.Gen.PTable QV.Gen.Radii QV.Model.PeriodicTable QV.Model.Radii.
-Require Import QV.Proofs.PeriodicTable QV.Proofs.Radii.
+Require Import QV.Common.DecC02.
+Require Import QV.Gen.PTable QV.Gen.Radii QV.Model.PeriodicTable QV.Model.Radii QV.Model.RadiiUnits.
+Require Import QV.Proofs.PeriodicTable QV.Proofs.Radii QV.Proofs.RadiiUnits.
 Import ListNotations.
 Open Scope Z_scope.
 
@@ -91,6 +92,22 @@ Theorem C17_value_is_tabulated_times_factor :
                    v = (f (en_units e) * dec_Q d)%Q.
 Proof. exact radius_value_spec. Qed.
 
+(** The default unit tied to CODATA: bohr2angstroms — the alias expression translated from context.py, evaluated over
+    the shipped CODATA table of the default context — is exactly ("bohr radius" value) * 10^10, the Decimal the context
+    computes for it has that value without rounding, and it is positive. *)
+Theorem C17_bohr2angstroms_from_codata :
+  exists r b d, codata_lookup "bohr radius" = Some r /\ b2a_Q = Some b /\ b2a_dec = Some d /\
+                (b == dec2Q r * inject_Z (10 ^ 10))%Q /\ (dec2Q d == b)%Q /\ (0 < b)%Q.
+Proof. exact b2a_from_codata. Qed.
+
+(** The default (Bohr) result of get is the tabulated Angstrom decimal divided by bohr2angstroms, as exact rationals
+    (equivalently: times bohr2angstroms it gives the tabulated number back), for ALL identifiers, both tables. *)
+Theorem C17_default_is_tabulated_over_bohr2angstroms :
+  forall t x v, radius_bohr t x = Ok v ->
+    exists b id e d, b2a_Q = Some b /\ (0 < b)%Q /\ ident t x = Ok id /\ tbl_get t id = Some e /\ en_data e = Some d /\
+                     (v == dec_Q d / b)%Q /\ (v * b == dec_Q d)%Q.
+Proof. exact default_bohr_value. Qed.
+
 (** ... with factor 1 (the native unit) it is the tabulated number itself; ... *)
 Theorem C17_native_unit_exact :
   forall t x f v, radius_value t x f = Ok v -> (forall u, f u == 1)%Q ->
@@ -147,6 +164,10 @@ Proof.
 Qed.
 
 (** Non-vacuity. *)
+Example C17_ex_bohr :
+  b2a_Q = Some (52917721067 # 100000000000)%Q /\ default_codata_year = 2014 /\
+  radius_bohr cov_table (PStr "c") = Ok (7600000000000 # 5291772106700)%Q.
+Proof. vm_compute. repeat split. Qed.
 Example C17_ex :
   let f := fun _ : string => (18897261254578281 # 10000000000000000)%Q in
   get (M := unit) cov_table (PStr "c") None false f = Ok (RValue (f "angstrom"%string * (76 # 100))%Q) /\
@@ -176,6 +197,8 @@ Print Assumptions C17_special_labels_own_entry.
 Print Assumptions C17_vdw_rows_own_entry.
 Print Assumptions C17_bare_element_is_largest_variant.
 Print Assumptions C17_value_is_tabulated_times_factor.
+Print Assumptions C17_bohr2angstroms_from_codata.
+Print Assumptions C17_default_is_tabulated_over_bohr2angstroms.
 Print Assumptions C17_native_unit_exact.
 Print Assumptions C17_linear_in_factor.
 Print Assumptions C17_all_entries_native_unit.
